@@ -10,6 +10,7 @@ from hypothesis import strategies as st
 from pytestarch.diagram_extension.diagram_parser import PumlParser
 from pytestarch.diagram_extension.exceptions import PumlParsingError
 
+from .. import rulespace as RS
 from ..drive import write_puml
 
 ID = "C06"
@@ -261,7 +262,7 @@ def diagrams(draw, shared_tokens=False):
         # component names and alias tokens come from one pool (disjoint within a diagram, not across diagrams)
         pool = pool + ALIASES[:4]
     names = draw(st.lists(st.sampled_from(pool), min_size=n, max_size=n, unique=True))
-    aliases = draw(st.permutations([a for a in ALIASES + (IDENTS[:4] if shared_tokens else []) if a not in names]))
+    aliases = draw(RS.shuffled([a for a in ALIASES + (IDENTS[:4] if shared_tokens else []) if a not in names]))
     aliases = list(aliases) + [f"sp{i}" for i in range(8)]
     comps = []
     for i, nm in enumerate(names):
@@ -289,7 +290,7 @@ def diagrams(draw, shared_tokens=False):
         if c["decl"] == "none" and i not in used:
             c["decl"] = "br"
     nlines = sum(1 for c in comps if c["decl"] != "none") + len(arrows)
-    order = list(draw(st.permutations(list(range(nlines)))))
+    order = list(draw(RS.shuffled(list(range(nlines)))))
     drop = draw(st.sampled_from([None] * 9 + ["start", "end"]))
     pre, post = draw(outside_text()), "\n" + draw(outside_text())
     if drop is None and draw(st.integers(0, 5)) == 0:
@@ -325,3 +326,5 @@ def run(ctx) -> None:
     ctx.exhaustive("alias-token-reused-as-component-in-next-diagram", MOD, "seq_shard", [(i, 8) for i in range(8)],
                    "2 alias declaration forms x 4 declaration forms x 2 reference forms x 6 arrow forms x both orders, three parses per case")
     ctx.random("random-diagrams", MOD, "strategy", "check_case", 6000 if ctx.tier == "quick" else 400000)
+    # coverage-guided arm over the same strategy and oracle (atheris; skipped when it is not installed)
+    ctx.fuzz("coverage-guided-diagrams", "strategy", "check_case", runs=1500 if ctx.tier == "quick" else 40000, procs=4 if ctx.tier == "quick" else 12)
